@@ -247,6 +247,13 @@ class Evaluator:
                 q = a.div(b)
                 if q is not None and self.facts.is_integer(q):
                     return q
+                if q is not None:
+                    # integer-valued part + rational constant: floor the constant alone
+                    import math
+                    cpart = q.t.get((), Fraction(0))
+                    ipart = Poly({m: c for m, c in q.t.items() if m != ()})
+                    if not ipart.is_zero() and self.facts.is_integer(ipart):
+                        return ipart + Poly.const(math.floor(cpart))
                 return self.atom("floordiv", a, b)
             if isinstance(e.op, ast.Mod):
                 q = a.div(b)
